@@ -80,16 +80,17 @@ var (
 
 func genStubFault(t *rapid.T, tool string) StubFault {
 	f := StubFault{Tool: tool}
-	switch rapid.IntRange(0, 9).Draw(t, "fault-end") {
-	case 0, 1, 2:
+	// one draw over the table end kind x output state, so that no cell is starved
+	cell := rapid.IntRange(0, 3*len(faultOuts)-1).Draw(t, "fault-cell")
+	switch cell / len(faultOuts) {
+	case 0:
 		f.End = rapid.SampledFrom(faultExits).Draw(t, "fault-exit")
-	case 3, 4, 5, 6:
+	case 1:
 		f.End = rapid.SampledFrom(faultSignals).Draw(t, "fault-signal")
 	default:
 		f.End = "exit:0"
 	}
-	// (rapid favours the ends of a range: the state that came out rarest sits there)
-	f.Out = rapid.SampledFrom([]string{"missing", "complete", "partial", "empty", "elsewhere", "missing"}).Draw(t, "fault-out")
+	f.Out = faultOuts[cell%len(faultOuts)]
 	if f.End == "exit:0" && f.Out == "complete" {
 		// nothing wrong but the manner: slow and / or loud
 		if rapid.Bool().Draw(t, "fault-slow") {
@@ -543,7 +544,7 @@ func classifyF(c CaseF) core.Class {
 func TestC13f(t *testing.T) {
 	core.Run(t, core.Spec[CaseF]{
 		Property: "C13", Sub: "f",
-		Rule: "FAULTS of the dependencies of Build(): histories of 2-3 payload requests on one live listener object (HTTP or SMB, encodable configurations of (a) incl. its host and scale classes), each request done as dispatch.go does it (new Builder with fresh options, any format x arch; Build(); if true GetPayloadBytes(); if bytes DeletePayload()), exactly ONE request of every history running under one fault, which is lifted afterwards (fault at the first / a middle / the last request). The compilers and the assembler are stubs that check their operands like a compiler driver and store their command line in the -o file; under a fault one of them gets a generated BEHAVIOUR for that request: {compiler 11/20 | assembler 6/20} ends with {exit status 1, 2, 126, 127, 255 (3/10) | death by SIGKILL, SIGSEGV, SIGTERM, the `sh -c` shell that runs it dying of the same signal (4/10) | exit status 0 (3/10)} having left the -o file {complete | cut to half | empty | missing | written to another path}, sometimes after sleeping 100-300 ms and / or after writing 1 KB - 1 MB to stderr and stdout (exit 0 with a complete output is always slow or loud); or (3/20) a file Build() needs is missing for that request: the whole source directory (the command cannot be started), one source sub-directory, the shellcode template. Oracle (the property's, HEAD as the model of what fails): whenever a request ends with bytes handed out, they carry the complete configuration block of that request - the right -DTRANSPORT_x and exactly one -DCONFIG_BYTES word equal to PatchConfig() of a separate builder for the same options and listener, which also passes (a)'s field oracle; the one exception is HEAD's trust in exit status 0 (a compiler that says 0 and leaves a cut / misplaced output); a request with nothing wrong but the manner (slow, loud), a missing source sub-directory, or a missing template that its format does not use must hand out the complete payload, as must every request before and after the faulty one; a failed build sends an Error console message; the live listener stays deep-equal to what it was. Labels fault:child-process:compiler:<exit-N|signal-X|output-<state>|<end kind>+output-<state>|slow|loud>@build, fault:child-process:assembler:<end kind|output-<state>|slow|loud>@build, fault:file:<what>:missing@build. Non-trivial: every case; distinct = (tool, end kind, output state | file, position of the faulty request, shellcode or not, transport)",
+		Rule: "FAULTS of the dependencies of Build(): histories of 2-3 payload requests on one live listener object (HTTP or SMB, encodable configurations of (a) incl. its host and scale classes), each request done as dispatch.go does it (new Builder with fresh options, any format x arch; Build(); if true GetPayloadBytes(); if bytes DeletePayload()), exactly ONE request of every history running under one fault, which is lifted afterwards (fault at the first / a middle / the last request). The compilers and the assembler are stubs that check their operands like a compiler driver and store their command line in the -o file; under a fault one of them gets a generated BEHAVIOUR for that request: {compiler 11/20 | assembler 6/20} ends with {exit status 1, 2, 126, 127, 255 | death by SIGKILL, SIGSEGV, SIGTERM, the `sh -c` shell that runs it dying of the same signal | exit status 0} (a third each) having left the -o file {complete | cut to half | empty | missing | written to another path}, sometimes after sleeping 100-300 ms and / or after writing 1 KB - 1 MB to stderr and stdout (exit 0 with a complete output is always slow or loud); or (3/20) a file Build() needs is missing for that request: the whole source directory (the command cannot be started), one source sub-directory, the shellcode template. Oracle (the property's, HEAD as the model of what fails): whenever a request ends with bytes handed out, they carry the complete configuration block of that request - the right -DTRANSPORT_x and exactly one -DCONFIG_BYTES word equal to PatchConfig() of a separate builder for the same options and listener, which also passes (a)'s field oracle; the one exception is HEAD's trust in exit status 0 (a compiler that says 0 and leaves a cut / misplaced output); a request with nothing wrong but the manner (slow, loud), a missing source sub-directory, or a missing template that its format does not use must hand out the complete payload, as must every request before and after the faulty one; a failed build sends an Error console message; the live listener stays deep-equal to what it was. Labels fault:child-process:compiler:<exit-N|signal-X|output-<state>|<end kind>+output-<state>|slow|loud>@build, fault:child-process:assembler:<end kind|output-<state>|slow|loud>@build, fault:file:<what>:missing@build. Non-trivial: every case; distinct = (tool, end kind, output state | file, position of the faulty request, shellcode or not, transport)",
 		Gen:  genF, Check: checkF, Classify: classifyF,
 		Assumptions: []string{
 			"/bin/sh and the coreutils head, tr, wc, sleep exist; a stub told to die of a signal also kills its parent when that is a shell (never the test process): the `sh -c` command as a whole dies of the signal",
